@@ -118,6 +118,8 @@ def run(rep, tier, seed, budget):
             # assumption: every token belongs to the robust alphabet of this table
             for t in toks:
                 for i, s in enumerate(R_ALPHA):
+                    if s in FIXED:
+                        continue  # index symbols ([C], [=C], [#C], [N], [=N], [O] ...) are in every robust alphabet
                     if s[-2] in "CNO" and "Branch" not in s and "Ring" not in s:
                         o = BONDS[s[1:-2]]
                         eng.assume(z3.Implies(t.e == i, zint(table[s[-2]]) >= o))
@@ -147,6 +149,6 @@ def run(rep, tier, seed, budget):
         res = driver.explore_parallel(level(n), left * 0.8)
         rep.add_part(name, res, {"alphabet": R_ALPHA, "N_symbols": n, "table": "keys %s free in 0..9" % R_KEYS})
     rep.assumptions += ["part i goes through the real set_semantic_constraints (validation included); the key is concretised (one path per key spelling), values stay symbolic",
-                        "part ii installs the table directly and assumes order(token) <= capacity(element) for every token",
+                        "part ii installs the table directly and assumes every token is in the robust alphabet of the table: index symbols unconditionally, other atom symbols iff order <= capacity",
                         "'reflects the table in force at the time of the call' is decided by C11's histories"]
     return ctx.stubs
